@@ -19,7 +19,7 @@ type c04 struct{}
 func (c04) ID() string    { return "C04" }
 func (c04) Level() string { return "exploration" }
 func (c04) Rule() string {
-	return "for every attribute of a table of 80 service / network / volume / secret / config attributes classified by the rule the statement gives it (scalar replace, mapping merge, sequence append, KEY=VALUE by key in either spelling, wholesale replace, keyed list, mapping of names with a short list spelling): ALL ways to split a final value of 2-3 atoms into a base part and an override part that the rule maps back to it (replacement from another value or from nothing; every base-only/override-only/both assignment of mapping keys; every cut point of a sequence, with and without a duplicate; every spelling on either side), delivered as two files (also under SkipNormalization / ResolvePaths off / SkipConsistencyCheck / SkipDefaultValues) and as two documents of one file (thorough: 2 overrides, mixed delivery); oracle: load(split) == load(single target document). !reset and !override at a representative of each class; a later file mentioning one attribute leaves every other attribute of the full corpus document unchanged. distinct = distinct (attribute, split) pairs"
+	return "for every attribute of a table of 80 service / network / volume / secret / config attributes classified by the rule the statement gives it (scalar replace, mapping merge, sequence append, KEY=VALUE by key in either spelling, wholesale replace, keyed list, mapping of names with a short list spelling): ALL ways to split a final value of 2-3 atoms into a base part and an override part that the rule maps back to it (replacement from another value or from nothing; every base-only/override-only/both assignment of mapping keys; every cut point of a sequence, with and without a duplicate; every spelling on either side), delivered as two files (also under SkipNormalization / ResolvePaths off / SkipConsistencyCheck / SkipDefaultValues) and as two documents of one file (thorough: 2 overrides, mixed delivery); oracle: load(split) == load(single target document). !reset and !override at a representative of each class, on dotted keys and under dotted service / resource names; a later file mentioning one attribute leaves every other attribute of the full corpus document unchanged. distinct = distinct (attribute, split) pairs"
 }
 func (c04) Assumptions() []string {
 	return []string{
@@ -554,7 +554,22 @@ func c04tags(c *core.Ctx) {
 		{"reset-then-unrelated-document", svc("    hostname: h\n    ports: [\"8000:3000\"]\n"), "services:\n  s:\n    ports: !reset []\n---\nservices:\n  s:\n    user: u\n", svc("    hostname: h\n    user: u\n")},
 		{"override-then-append-document", svc("    ports: [\"8000:3000\"]\n"), "services:\n  s:\n    ports: !override [\"9000:4000\"]\n---\nservices:\n  s:\n    ports: [\"9001:4001\"]\n", svc("    ports: [\"9000:4000\", \"9001:4001\"]\n")},
 	}
-	for _, tcs := range cases {
+	// the tags on a dotted key as well (a label key, an option key): the path to a tagged node may contain dots anywhere
+	cases = append(cases,
+		tc{"reset-dotted-label-key", svc("    labels: {com.example.a: \"1\", com.example.b: \"2\"}\n"), "services:\n  s:\n    labels:\n      com.example.b: !reset null\n", svc("    labels: {com.example.a: \"1\"}\n")},
+		tc{"override-below-dotted-key", svc("    deploy:\n      labels: {a.b: \"1\"}\n    sysctls: {net.core.somaxconn: 1, net.ipv4.x: 2}\n"), "services:\n  s:\n    sysctls: !override {net.ipv4.y: 3}\n", svc("    deploy:\n      labels: {a.b: \"1\"}\n    sysctls: {net.ipv4.y: 3}\n")},
+	)
+	var all []tc
+	for _, t := range cases {
+		all = append(all, t)
+		// and with dotted names for the service and the network
+		d := t
+		d.name += "/dotted-names"
+		ren := strings.NewReplacer("\n  s:\n", "\n  web.api.v2:\n", "\n  n1:", "\n  net.one:")
+		d.base, d.over, d.target = ren.Replace(t.base), ren.Replace(t.over), ren.Replace(t.target)
+		all = append(all, d)
+	}
+	for _, tcs := range all {
 		for _, delivery := range []string{"files", "documents"} {
 			tcs, delivery := tcs, delivery
 			id := "tag/" + tcs.name + "/" + delivery
